@@ -17,13 +17,13 @@ import (
 // return), the registry, isLoopbackAddr(remoteAddr).
 func init() {
 	Props["C27"] = &Prop{
-		Imports: "From Verif Require Import Model.Portmap Corr.C27.",
+		Imports: "From Verif Require Import Model.Portmap Corr.C27Bytes Corr.C27.",
 		Gen:     genC27,
 		Corpus:  corpusC27,
 		NonTrivial: func(c *Case) bool {
 			return c.Tags["registry.changed"] > 0 && (c.Tags["nonlocal.modify.attempt"] > 0 || c.Tags["query.hit"] > 0)
 		},
-		ShardSize: 40,
+		ShardSize: 25,
 	}
 }
 
@@ -359,15 +359,19 @@ func genCall(r *Rand, pool []key3) event {
 
 // ---------- running a history on the real code ----------
 
-// CB renders a byte string as the Coq term (B len 0xHEX) of Corr/C27.v.
+// CB renders a byte string as the Coq term (B (X0a (Xff E))) of Corr/C27.v / Corr/C27Bytes.v.
 func CB(b []byte) string {
-	if len(b) == 0 {
-		return "(B 0 0)"
+	if len(b) > 256 { // keep the nesting depth of a term bounded
+		return "(" + CB(b[:256]) + " ++ " + CB(b[256:]) + ")"
 	}
-	if len(b) > 128 { // long hexadecimal literals overflow the stack of Coq's number parser
-		return "(" + CB(b[:128]) + " ++ " + CB(b[128:]) + ")"
+	var sb strings.Builder
+	sb.WriteString("(B ")
+	for _, x := range b {
+		fmt.Fprintf(&sb, "(X%02x ", x)
 	}
-	return fmt.Sprintf("(B %d 0x%x)", len(b), b)
+	sb.WriteString("E")
+	sb.WriteString(strings.Repeat(")", len(b)+1))
+	return sb.String()
 }
 
 func regRows(ms []absnfs.PortMapping) string {
